@@ -349,8 +349,10 @@ theorem recombine_list_loops (p : Int) (isField : Bool) (points : List (Int × L
   have hg1 : pyIdxOk N 0 = true := by
     have := pyIdxOk_nat (k := 0) hN0
     simpa using this
-  rw [hg0, hN, hg1]
-  simp only [Bool.true_eq_false, ↓reduceIte]
+  have hT : decide (((N : ℕ) : Int) > 0 ∧ isField = true) = isField := by
+    cases isField <;> simp [hN0]
+  rw [hg0, hN]
+  simp only [hg1, hT, Bool.true_eq_false, and_false, ↓reduceIte]
   rw [init_mat]
   simp only [Int.toNat_natCast]
   have hv : ∀ r < x_rs.length, ∀ i < (points.map Prod.snd).length,
@@ -408,8 +410,10 @@ theorem recombine_one_loops (p : Int) (isField : Bool) (points : List (Int × Li
   have hg1 : pyIdxOk N 0 = true := by
     have := pyIdxOk_nat (k := 0) hN0
     simpa using this
-  rw [hg0, hN, hg1]
-  simp only [Bool.true_eq_false, ↓reduceIte]
+  have hT : decide (((N : ℕ) : Int) > 0 ∧ isField = true) = isField := by
+    cases isField <;> simp [hN0]
+  rw [hg0, hN]
+  simp only [hg1, hT, Bool.true_eq_false, and_false, ↓reduceIte]
   rw [init_mat]
   simp only [Int.toNat_natCast]
   have hv : ∀ r < [x_r].length, ∀ i < (points.map Prod.snd).length,
